@@ -280,8 +280,10 @@ class _Renderer:
         self.o.w("\n")
 
     def blank(self, where: str) -> None:
-        if self.site("blank", ("0", "1"), where) == "1":
-            self.o.w("\n")
+        # a blank line, possibly carrying trailing spaces of a width unrelated to the surrounding indent
+        v = self.site("blank", ("0", "1", "s1", "s3", "s7"), where)
+        if v != "0":
+            self.o.w(" " * (int(v[1:]) if v.startswith("s") else 0) + "\n")
 
     def comment_line(self, text: str, lvl: int) -> None:
         if "\n" in text:
@@ -840,9 +842,9 @@ def value_pool(kind: str = "small") -> list:
         # escapes
         'q"uote', '"', "back\\slash", "a\\nb", "a\\tb", "trail\\", "\\", 'a\\"b', "line\nbreak", "tab\there", "a\rb", "\n",
         # identifiers with punctuation, variables, percent
-        "a.b", "a-b", "a-", "a/b", "./p", "$VAR", "$1:name", "$", "50%", "%", "a b  c",
+        "a.b", "a-b", "a-", "a/b", "./p", "//", "//cdn/x.js", "/abs/p", "$VAR", "$1:name", "$", "50%", "%", "a b  c",
         # unicode
-        "caf\u00e9", "cafe\u0301", "\u65e5\u672c\u8a9e", "\U0001f600", "\u00a0", "a\u200bb", "\u2192\u2192",
+        "caf\u00e9", "cafe\u0301", "\u65e5\u672c\u8a9e", "\U0001f600", "\u00a0", "a\u200bb", "\u2192\u2192", "a\u2028b", "a\x0cb", "a\x85b", "a\x1eb",
         # whitespace edges and misc punctuation
         " lead", "trail ", "  ", "=", ";", "*", "'", "don't", "a=b", "!", "?",
     ]
